@@ -329,6 +329,15 @@ def _compute_targets(processed_results, targets, model_functions, params):
         p for p in list(inspect.signature(target_func).parameters) if p != "params"
     ]
 
+    if not variables:
+        # None of the targets depends on a simulated variable (e.g. a constant auxiliary
+        # function); evaluate them once and repeat the result for every row.
+        n_rows = len(processed_results["value"])
+        return {
+            k: jnp.repeat(jnp.asarray(v), n_rows)
+            for k, v in target_func(params=params).items()
+        }
+
     target_func = vmap_1d(target_func, variables=variables)
 
     kwargs = {k: v for k, v in processed_results.items() if k in variables}
